@@ -36,6 +36,10 @@ type Verdict struct {
 	BadRegs  []isa.Reg
 	BadLines []int32
 	BadMany  bool
+	// Any marks a violation that any value corruption in the run could cause
+	// (e.g. a cycle count that depends on data because the machine took another
+	// dynamic path): it is explained by whichever known defect is active.
+	Any bool
 }
 
 func (v Verdict) OK() bool { return v.Class == OK }
